@@ -116,6 +116,7 @@ func runC08(r *core.Run) {
 	alignAllLengthPairs(r, "sym:2:-1:-1:0", judgeC08)
 	alignBufferReuse(r, []string{"sym:1:-1:-1:0", "sym:3:-3:-1:-2"})
 	alignAllBytes(r, true, []string{"2:-1:-1:0", "1:-2:-1:-1"}, judgeC08)
+	alignAllBytePairs(r, judgeC08)
 	alignAliasing(r, "AB", core.Pick(r, 4, 5), []string{"sym:1:-1:-1:0", "sym:3:-3:-1:-2", "sym:0:-1:-1:0", "sym:-1:-2:-1:-1", "asym:0:-1", "Levenshtein"}, judgeC08)
 	core.Clause(r, "shipped", core.Opts{Rule: "every pair over {A,R,W,X} with each shipped PAM/BLOSUM matrix and over {a,b,0x00,0xFE} with Levenshtein; non-trivial = both non-empty"},
 		genShipped(core.Pick(r, 3, 4), bothFns), checkC08(r))
